@@ -54,14 +54,14 @@ pub const NAME_POOL: [&str; 12] =
     ["alpha", "beta", "gamma", "delta", "eps", "zeta", "count2", "is_ok", "the_value", "x_1", "kappa_mu", "n0"];
 
 /// Weighted menu: tokens and owned types are over-represented.
-pub const WEIGHTED: [usize; 80] = [
+pub const WEIGHTED: [usize; 81] = [
     0, 1, 2, 3, 4, 5, 6, 7, 8, 9, 10, 11, 12, 13, 14, 15, 16, 17, 18, 19, 20, 21, 22, 23, 24, 25, 26, 27, 28, 29, 30, // once each
     22, 23, 24, 25, 26, 27, 28, 22, 24, 26, 28, // tokens
     17, 18, 19, 20, 21, 17, // owned
     12, 13, 14, 5, 8, 2, 3, 0, // zero-size, odd sizes, integers
     31, 32, 33, 31, 32, 31, 32, 33, // large token, vector of tokens, large plain data
     34, 35, 34, // cache-line alignment, 320 bytes
-    42, 42, 43, 43,
+    42, 42, 43, 43, 44,
     36, 37, 37, 38, 39, 40, 40, 41, 41, // 1.3 KB token, floats, fn pointer, raw pointer, boxed closure, std-like user path
 ];
 
@@ -163,6 +163,9 @@ pub enum PerturbKind {
     SizePlusAlign,
     AlignHalf,
     AlignDouble,
+    /// not a power of two
+    AlignMinus1,
+    AlignPlus1,
     /// may-be-uninitialised flag on a type that is not `Copy`
     UninitNonCopy,
 }
@@ -237,6 +240,8 @@ pub fn perturbed(info: &TypeInfo, kind: PerturbKind) -> TypeInfo {
         PerturbKind::SizePlusAlign => t.size += t.align,
         PerturbKind::AlignHalf => t.align /= 2,
         PerturbKind::AlignDouble => t.align *= 2,
+        PerturbKind::AlignMinus1 => t.align -= 1,
+        PerturbKind::AlignPlus1 => t.align += 1,
         PerturbKind::UninitNonCopy => {}
     }
     t
@@ -247,6 +252,7 @@ pub fn perturbation_applies(idx: usize, info: &TypeInfo, kind: PerturbKind) -> b
     match kind {
         PerturbKind::SizeMinus1 => info.size >= 1,
         PerturbKind::AlignHalf => info.align >= 2,
+        PerturbKind::AlignMinus1 => info.align >= 4,
         PerturbKind::UninitNonCopy => idx < MARKER_BASE && !MENU[idx].copy,
         _ => true,
     }
@@ -288,7 +294,7 @@ pub fn build_ext(h: &RHistory, ext: &Ext) -> Built {
                     idx = MARKER_BASE + mk % MARKERS.len();
                 }
                 let mut info = if idx >= MARKER_BASE { marker_info(idx - MARKER_BASE) } else { with_menu_type!(idx, T => HostTypeResolver.type_info::<T>()) };
-                if idx == 40 {
+                if idx == 40 || idx == 44 {
                     // The name the host resolver records for a `dyn Fn` type goes through the private module
                     // core::ops::function and does not compile; trait objects are outside the types whose
                     // recorded names the properties speak about, so the name is given as a user would, by override.
